@@ -43,6 +43,33 @@ func RunEnc(f *Format, v Value) (o EncObs) {
 	return
 }
 
+// RunDecAlloc is RunDec plus the bytes the decoder call allocated (setup excluded when the
+// format has a Prep).
+func RunDecAlloc(f *Format, b []byte) (o DecObs, alloc uint64) {
+	call := func() (Value, int, bool) { return f.Dec(b) }
+	if f.Prep != nil {
+		var prepared func() (Value, int, bool)
+		if p, msg := hv.Catch(func() { prepared = f.Prep(b) }); p {
+			return DecObs{V: f.Zero(), Code: PANIC, Msg: "setup: " + msg}, 0
+		}
+		call = prepared
+	}
+	alloc = MeasureAlloc(func() {
+		p, msg := hv.Catch(func() {
+			v, rem, ok := call()
+			if ok {
+				o = DecObs{V: v, Rem: rem, Code: OK}
+			} else {
+				o = DecObs{V: f.Zero(), Rem: rem, Code: ERR}
+			}
+		})
+		if p {
+			o = DecObs{V: f.Zero(), Code: PANIC, Msg: msg}
+		}
+	})
+	return
+}
+
 // RunDec calls the real decoder on a stream holding exactly b.
 func RunDec(f *Format, b []byte) (o DecObs) {
 	p, msg := hv.Catch(func() {
